@@ -176,12 +176,12 @@ K4OPS = [0, 1, 3, 5, 11]
 def c11k4(code: int, o3: int, p0: int, p1: int, p2: int, p3: int, v: int) -> str:
     """
     pre: LO <= code < HI and 0 <= code < 125
-    pre: 0 <= o3 < 5 and 0 <= p0 <= 1 and 0 <= p1 <= 2 and 0 <= p2 <= 3 and 0 <= p3 <= 4
+    pre: 0 <= o3 < 5 and 0 <= p0 <= 1 and 0 <= p1 <= 2 and 2 <= p2 <= 3 and 3 <= p3 <= 4
     post: (_ == '') != TWIN
     """
     code = pick(code, max(LO, 0), min(HI, 125))
     ops = [K4OPS[code // 25], K4OPS[(code // 5) % 5], K4OPS[code % 5], K4OPS[pick(o3, 0, 5)]]
-    pars = [pick(p0, 0, 2), pick(p1, 0, 3), pick(p2, 0, 4), pick(p3, 0, 5)]
+    pars = [pick(p0, 0, 2), pick(p1, 0, 3), pick(p2, 2, 4), pick(p3, 3, 5)]      # the last two steps derive from one of the two newest streams
     tick()
     try:
         return history(4, ops, pars, [v, v + 1, v, v + 2])
